@@ -1288,3 +1288,59 @@ T("C12", "twin-msb-bit-length", ("wavefunction.py", "    bin_string = bin(val)\n
 B("C17", "projected-key-as-digit-string", ("distributions/_measurement_outcome_distribution.py", "            new_key = tuple(key[i] for i in active_qubits)", '            new_key = "".join(str(key[i]) for i in active_qubits)'), rule="C17-D4")
 B("C17", "projected-key-comma-joined", ("distributions/_measurement_outcome_distribution.py", "            new_key = tuple(key[i] for i in active_qubits)", '            new_key = ",".join(str(key[i]) for i in active_qubits)'), rule="C17-D4")
 B("C17", "one-entry-key-without-separator", ("distributions/_measurement_outcome_distribution.py", '        (",".join(map(str, key)) + ("," if len(key) == 1 else ""))', '        ",".join(map(str, key))'), rule="C17-D5")
+
+
+# ----------------------------------------------------------------------------- round 5 rules: breaking variants and benign twins
+B("C03", "sum-product-shortcut-on-falsy-operand", (OPS, """    def __mul__(self, other: Union[PauliRepresentation, complex]) -> "PauliSum":
+        _validate_type(other)
+
+        other_terms = (""", """    def __mul__(self, other: Union[PauliRepresentation, complex]) -> "PauliSum":
+        _validate_type(other)
+
+        if not other:
+            return PauliSum()
+
+        other_terms = ("""), rule="C03-D3")
+B("C16", "term-constant-when-coefficient-vanishes", (OPS, "        return self._ops == {}\n", "        return self._ops == {} or bool(np.isclose(self.coefficient, 0.0))\n"), rule="C16-D2")
+T("C16", "twin-is-constant-not-ops", (OPS, "        return self._ops == {}\n", "        return not self._ops\n"))
+B("C10", "sum-is-ising-by-set-equality", (OPS, "            self._is_ising = all([term.is_ising for term in self.terms])", '            self._is_ising = {op for term in self.terms for op, _ in term} == {"Z"}'), rule="C10-D8")
+T("C10", "twin-sum-is-ising-generator", (OPS, "            self._is_ising = all([term.is_ising for term in self.terms])", "            self._is_ising = all(term.is_ising for term in self.terms)"))
+B("C10", "pair-loop-same-term-by-equality", (PAR, """            parity1 = check_parity_of_vector(bitstrings_vector, term1.qubits)
+            parity2 = check_parity_of_vector(bitstrings_vector, term2.qubits)""", """            if term1 == term2:
+                correlations[0][term1_index, term2_index][0] = bitstring_counts.sum()
+                continue
+            parity1 = check_parity_of_vector(bitstrings_vector, term1.qubits)
+            parity2 = check_parity_of_vector(bitstrings_vector, term2.qubits)"""), rule="C10-D1")
+B("C11", "list-saved-through-numpy", (UTL, '    dictionary["list"] = array\n', '    dictionary["list"] = np.asarray(array).tolist()\n'), rule="C11-D1")
+T("C11", "twin-list-saved-as-list-copy", (UTL, '    dictionary["list"] = array\n', '    dictionary["list"] = list(array)\n'))
+B("C13", "deficit-overwritten-without-break", (MEAS, """                correct_samples = correct_samples + new_samples
+                break
+""", """                correct_samples = correct_samples + new_samples
+"""), rule="C13-D6")
+B("C17", "preprocess-returns-callers-dictionary", (DIST, """    res_dict: Dict[Union[str, Tuple[int, ...]], float] = {}
+    for key, value in input_dict.items():""", """    if all(isinstance(key, tuple) for key in input_dict):
+        return input_dict
+    res_dict: Dict[Union[str, Tuple[int, ...]], float] = {}
+    for key, value in input_dict.items():"""), rule="C17-D1")
+B("C19", "natural-key-from-groupby-runs", ("circuits/symbolic/_sorting.py", """    return [
+        _convert_string_to_int_if_possible(group)
+        for group in re.split(r"(\\d+)", symbol.name)
+    ]""", """    from itertools import groupby
+
+    return [
+        int("".join(group)) if is_number else "".join(group)
+        for is_number, group in groupby(symbol.name, key=str.isdigit)
+    ]"""), rule="C19-D5")
+B("C05", "builtin-lookup-case-insensitive", ("circuits/_builtin_gates.py", "    return globals()[name]\n", "    return globals()[name] if name in globals() else globals()[name.upper()]\n"), rule="C05-D4")
+B("C09", "expectation-value-cast-to-real-inside", ("operators/_utils.py", "    exp_val = expectation(sparse_op, wavefunction.amplitudes)\n    return exp_val\n", "    exp_val = expectation(sparse_op, wavefunction.amplitudes)\n    return float(np.real(exp_val))\n"), rule="C09-D4")
+B("C01", "empty-circuit-ignores-initial-state", (SIM, """        for is_supported, subcircuit in split_circuit(""", """        if not circuit.operations:
+            return Wavefunction(np.eye(1, 2**circuit.n_qubits)[0])
+        for is_supported, subcircuit in split_circuit("""), rule="C01-D1")
+B("C06", "circuit-free-symbols-cached", (CIR, """    @property
+    def free_symbols(self) -> List[sympy.Symbol]:""", """    @functools.cached_property
+    def free_symbols(self) -> List[sympy.Symbol]:"""), rule="C06-D7")
+B("C03", "exponentiation-memoised-by-tolerant-key", (OPS, """def _efficient_exponentiation(
+    pauli_rep: PauliRepresentation, power: int""", """@functools.lru_cache(maxsize=512)
+def _efficient_exponentiation(
+    pauli_rep: PauliRepresentation, power: int"""), rule="C03-D8")
+T("C12", "twin-cache-keyed-by-an-int", ("wavefunction.py", "def _most_significant_set_bit(val):", "@lru_cache()\ndef _most_significant_set_bit(val):"))
